@@ -162,7 +162,7 @@ def numpy_models():
                 raise Unmodelled('numpy.power on integers beyond int64')
             if b < 0:
                 raise ExcRaised(Ref('builtin:ValueError'))      # "Integers to negative integer powers are not allowed."
-            return wrap64(int(a) ** int(b))                      # int64 arithmetic wraps silently
+            return wrap64(pow(int(a), int(b), 2 ** 64))           # int64 arithmetic wraps silently (computed modulo 2^64)
         try:
             res = float(a) ** float(b)
         except OverflowError:
